@@ -9,6 +9,7 @@ import ShapeVerif.Model.Merge
 import ShapeVerif.Model.Json
 import ShapeVerif.Model.Infer
 import ShapeVerif.Model.Display
+import ShapeVerif.Model.Serde
 import ShapeVerif.Ref.Sem
 import ShapeVerif.Ref.Rfc8259
 import ShapeVerif.Ref.Witness
@@ -143,6 +144,15 @@ def step (line : String) : String :=
   | ["display", a] => withShape a fun a =>
       if asciiKeys a then hexOfString (display a) else "unmodelled"
   | ["echo", a] => withShape a fun a => sexp a
+  | ["serde", a] => withShape a fun a => hexOfString (renderJson (serJ a))
+  | ["serdert", a] => withShape a fun a =>
+      match deserialize (serJ a) with
+      | some b => "ok " ++ sexp b
+      | none => "err"
+  | ["p_c11", a] => withShape a fun a =>
+      match deserialize (serJ a) with
+      | some b => if Shape.cmp a b == .eq then "ok" else "violated: serde round trip"
+      | none => "violated: serde round trip"
   | ["inferdoc", h] =>
       match docOfHex h with
       | none => "not-json"
